@@ -112,6 +112,13 @@ theorem C16_overwrite_on_pinned : ∃ acts, (run Skeleton.pinned init acts).map
   ⟨[.linkCheck, .setErrEnter 10 7, .setErrClose 10, .setErrStore 10,
     .setErrEnter 11 8, .setErrClose 11, .setErrStore 11, .linkWake, .linkReturn], by decide⟩
 
+/-- `C16_blocks_while_healthy` needs every `setErr` of M2 to stem from a failure OF THE LINK.  The stub
+    turns any error of `Receive` into `setErr`; `Receive` fails only when the table is closed (checked
+    against the regenerated skeleton) — i.e. only when `setErr` has run already.  Were it to refuse, say,
+    a context that is already done, one call made with an expired context would end a healthy link and
+    `Link` would return that call's context error. -/
+theorem C16_only_link_failures_end_the_link : Skeleton.current.bcReceiveErrorsOnlyClosed = true := by decide
+
 /-- `C16_prompt` counts M2's `setErrEnter / setErrStore / setErrClose` as steps that are always enabled for
     the thread inside `setErr`.  In the source that needs `setErr` to wait for nobody: the only lock it takes
     is its own condition variable's (whose critical sections run no foreign code), it has no channel
@@ -125,6 +132,7 @@ theorem C16_setErr_waits_for_nobody :
 end Panrpc.Ep
 
 #print axioms Panrpc.Ep.C16_setErr_waits_for_nobody
+#print axioms Panrpc.Ep.C16_only_link_failures_end_the_link
 
 #print axioms Panrpc.Ep.C16_blocks_while_healthy
 #print axioms Panrpc.Ep.C16_returns_first
